@@ -316,9 +316,11 @@ def solver_obligations(prop, tier, ctx):
     S = z3.StringSort()
     any_ = z3.AllChar(z3.ReSort(S))
     regs = []
+    prefix = {}
     for name, nodes, flags in rules:
         try:
-            regs.append((name, smt.re_to_z3(nodes, flags)))
+            regs.append((name, smt.re_whole_to_z3(nodes, flags)))
+            prefix[name] = smt.re_prefix_to_z3(nodes, flags)        # trailing negative look-aheads are understood here
         except smt.Untranslatable as e:
             regs.append((name, None))
     known = set()
@@ -345,7 +347,7 @@ def solver_obligations(prop, tier, ctx):
                 unknown.append((nj, ni))
                 continue
             # (a lexeme that IS a lexeme of the earlier rule - the keyword itself - is meant to be pre-empted)
-            v, model, dt, _ = smt.check([z3.InRe(w, ri), z3.InRe(w, z3.Concat(rj, z3.Star(any_))), z3.Not(z3.InRe(w, rj)), z3.Not(z3.SuffixOf(z3.StringVal('-'), w)), z3.Length(w) <= 12], 60000)
+            v, model, dt, _ = smt.check([z3.InRe(w, ri), z3.InRe(w, prefix[nj]), z3.Not(z3.InRe(w, rj)), z3.Not(z3.SuffixOf(z3.StringVal('-'), w)), z3.Length(w) <= 12], 60000)
             total += dt
             nq += 1
             if v == 'sat':
